@@ -503,12 +503,20 @@ class BufferWorld:
         if p.get('driver') == 'pre':
             # every operation is a timer registered before the buffer arms any of its own: at an exact tie between a
             # submission and the quiet timer the submission is processed first (the sequential driver gives the other order)
+            fired = [0]
+
+            def fire(op):
+                fired[0] += 1
+                run_op(op)
             for op in ops:
-                loop.call_at(op['at'], run_op, op)
+                loop.call_at(op['at'], fire, op)
             last = max([op['at'] for op in ops] + [0.0])
             if last > loop.time():
                 await asyncio.sleep(last - loop.time())
-            await asyncio.sleep(0)
+            while fired[0] < len(ops):
+                # a timer that is due is queued behind the handles that are already ready (this task among them): the
+                # program's last operation must have happened before the closing wait()/sleep below begins
+                await asyncio.sleep(0)
             ops = []
         for op in ops:
             if op['at'] > loop.time():
